@@ -159,9 +159,11 @@ enum Step {
     ChainR,
     /// shallow op X op shallow
     ChainM,
+    /// three operands joined by two *different* operators, the deep one first, in the middle or last
+    ChainMixed,
 }
 
-const STEPS: [Step; 12] = [
+const STEPS: [Step; 13] = [
     Step::P,
     Step::N,
     Step::Q,
@@ -174,6 +176,7 @@ const STEPS: [Step; 12] = [
     Step::ChainL,
     Step::ChainR,
     Step::ChainM,
+    Step::ChainMixed,
 ];
 
 fn map_bv(v: &BV, f: impl Fn(bool) -> bool) -> BV {
@@ -269,6 +272,44 @@ fn apply(step: Step, b: &Built, v: usize, abv: usize) -> Option<Built> {
             out.kinds |= K_CALL;
             out.pos |= POS_ARG1;
         }
+        Step::ChainMixed => {
+            // and binds tighter than xor, xor tighter than or: value by construction
+            const PAIRS: [(usize, usize); 6] = [(0, 1), (1, 0), (0, 2), (2, 0), (1, 2), (2, 1)];
+            let (o1, o2) = PAIRS[v % 6];
+            let spell = |o: usize, alt: bool| [["and", "&&"], ["or", "||"], ["xor", "^^"]][o][alt as usize];
+            let prec = |o: usize| [3, 1, 2][o];
+            let f = |o: usize, p: bool, q: bool| match o {
+                0 => p && q,
+                1 => p || q,
+                _ => p != q,
+            };
+            let shallow = |k: usize| -> (String, BV) {
+                if b.arr() {
+                    ("ab".to_string(), BV::Many(AB_VARIANTS[abv % 3].to_vec()))
+                } else if (v / 18 + k) % 2 == 0 {
+                    ("t".to_string(), BV::One(true))
+                } else {
+                    ("f".to_string(), BV::One(false))
+                }
+            };
+            let (s1, v1) = shallow(0);
+            let (s2, v2) = shallow(1);
+            let pos = (v / 6) % 3;
+            let (texts, vals): ([&str; 3], [&BV; 3]) = match pos {
+                0 => ([x.as_str(), s1.as_str(), s2.as_str()], [&b.val, &v1, &v2]),
+                1 => ([s1.as_str(), x.as_str(), s2.as_str()], [&v1, &b.val, &v2]),
+                _ => ([s1.as_str(), s2.as_str(), x.as_str()], [&v1, &v2, &b.val]),
+            };
+            out.text = format!("{} {} {} {} {}", texts[0], spell(o1, v % 2 == 1), texts[1], spell(o2, v % 4 >= 2), texts[2]);
+            out.val = if prec(o1) >= prec(o2) {
+                zip_bv(&zip_bv(vals[0], vals[1], |p, q| f(o1, p, q)), vals[2], |p, q| f(o2, p, q))
+            } else {
+                zip_bv(vals[0], &zip_bv(vals[1], vals[2], |p, q| f(o2, p, q)), |p, q| f(o1, p, q))
+            };
+            out.pos |= [POS_CHAIN_LEFT, POS_CHAIN_MIDDLE, POS_CHAIN_RIGHT][pos];
+            out.chain = true;
+            return Some(out);
+        }
         Step::ChainL | Step::ChainR | Step::ChainM => {
             let opi = v % 6;
             let op = ["and", "or", "xor", "&&", "||", "^^"][opi];
@@ -333,13 +374,23 @@ fn value_wrap(b: &Built, v: usize) -> Option<(String, MVal, usize)> {
 
 const NESTING_MSG: &str = "maximum nesting depth exceeded";
 
-fn parser_for(scheme: &Scheme, d: usize) -> FilterParser<'_> {
-    let mut p = FilterParser::new(scheme);
-    if d != 128 {
+/// The limit reaches the parser through one of its three configuration routes
+/// (chosen from the input text, so that every route sees every kind of shape).
+fn parser_for<'s>(scheme: &'s Scheme, d: usize, text: &str) -> FilterParser<'s> {
+    let route = fingerprint(text) % 3;
+    if d == 128 && route == 0 {
         // 128 is the documented default: exercised through the untouched parser
-        p.set_max_nesting_depth(d as u16);
+        return FilterParser::new(scheme);
     }
-    p
+    match route {
+        0 => {
+            let mut p = FilterParser::new(scheme);
+            p.set_max_nesting_depth(d as u16);
+            p
+        }
+        1 => FilterParser::with_settings(scheme, wirefilter::ParserSettings { max_nesting_depth: d as u16, ..Default::default() }),
+        _ => scheme.parser_with_settings(wirefilter::ParserSettings { max_nesting_depth: d as u16, ..Default::default() }),
+    }
 }
 
 fn case_json(text: &str, depth: usize, d: usize, val: Value, abv: usize) -> Value {
@@ -408,7 +459,7 @@ fn check_filter(b: &Built, d: usize, abv: usize, sem: bool, st: &mut Stats) -> C
     let BV::One(want) = b.val else { panic!("model: top level is an array") };
     let show = || case_json(&b.text, b.depth, d, b.val.show(), abv);
     let scheme: &Scheme = &SCHEME;
-    let parser = parser_for(scheme, d);
+    let parser = parser_for(scheme, d, &b.text);
     st.eval();
     let r = catch(|| parser.parse(&b.text).map_err(|e| e.to_string()));
     let Some(ast) = judge_parse("filter", r, b.depth, d, !b.hexname, st, &show)? else {
@@ -442,7 +493,7 @@ fn check_value(text: &str, want: &MVal, depth: usize, d: usize, abv: usize, sem:
         j
     };
     let scheme: &Scheme = &SCHEME;
-    let parser = parser_for(scheme, d);
+    let parser = parser_for(scheme, d, text);
     st.eval();
     let r = catch(|| parser.parse_value(text).map_err(|e| e.to_string()));
     let Some(ast) = judge_parse("value", r, depth, d, strict_class, st, &show)? else {
@@ -616,7 +667,7 @@ fn reuse_case(ch: &mut Choices<'_>, st: &mut Stats) -> CaseResult {
     let d = *ch.pick(&[0usize, 1, 2, 3, 4, 5, 6, 128]);
     let abv = ch.draw(3);
     let scheme: &Scheme = &SCHEME;
-    let parser = parser_for(scheme, d);
+    let parser = parser_for(scheme, d, &format!("reuse{d}{abv}"));
     let n = ch.range(2, 7);
     let mut history: Vec<Value> = Vec::new();
     let (mut broken_before, mut over_before) = (false, false);
@@ -936,7 +987,7 @@ fn stack_case(ch: &mut Choices<'_>, st: &mut Stats) -> CaseResult {
 fn child_work(d: usize, kind: &str, abv: usize, text: &str) -> Result<String, String> {
     use std::hash::{Hash, Hasher};
     let scheme: &Scheme = &SCHEME;
-    let parser = parser_for(scheme, d);
+    let parser = parser_for(scheme, d, text);
     let ec = RECIPE.make_ctx(scheme, &mctx(abv), &ListState::new());
     let mut h = std::collections::hash_map::DefaultHasher::new();
     if kind == "F" {
